@@ -396,3 +396,96 @@ def _pml_from_model(inp):
 
 native(f"{H_}.process_month_loads", _pml_check, _pml_gen, _pml_from_model,
        bound="real process_month_loads on synthetic monthly tables: mixed/heating-only/cooling-only/zero months, peaks on first/last day, same-day peaks, durations 0.5..48 h, horizons 1..240 months")
+
+
+# ---- split_heat_and_cool / split_loads_by_month / process_two_day_loads (C06 inputs, C07 window) ---------------
+from pyvc.libmodels import seq_sum  # noqa: E402
+
+contract(f"{H_}.split_heat_and_cool", dict(raw_loads=ListOf(Real)),
+         ensures=[("lengths", lambda E: And(E.result[0].len == E.raw_loads.len, E.result[1].len == E.raw_loads.len)),
+                  ("rejection-minus-extraction-is-the-ground-load-in-kW",
+                   lambda E: forall(1, lambda h: Implies(And(0 <= h, h < E.raw_loads.len),
+                                                         And(E.result[0][h] - E.result[1][h] == -E.raw_loads[h] / 1000,
+                                                             E.result[0][h] >= 0, E.result[1][h] >= 0,
+                                                             Or(E.result[0][h] == 0, E.result[1][h] == 0)))))],
+         returns=TupleOf(ListOf(Real), ListOf(Real)))
+
+YEAR = ListOf(Real, length=8760)
+F13 = lambda s: FixedList(s, 13)  # noqa: E731
+DIM = Const(None)
+
+
+def HLsplit():
+    from pyvc.values import PyList as _PL
+
+    return ObjOf(H_, hourly_rejection_loads=YEAR, hourly_extraction_loads=YEAR,
+                 days_in_month=Const(_PL([0] + DAYS)),
+                 monthly_cl=F13(Real), monthly_hl=F13(Real), monthly_peak_cl=F13(Real), monthly_peak_hl=F13(Real),
+                 monthly_avg_cl=F13(Real), monthly_avg_hl=F13(Real), monthly_peak_cl_day=F13(Int), monthly_peak_hl_day=F13(Int),
+                 two_day_hourly_peak_cl_loads=Const(None), two_day_hourly_peak_hl_loads=Const(None))
+
+
+class _SumCtx:
+    """lets a spec use the engine's prefix-sum function of a list (the same function the code's sum() was modelled with)"""
+    ex = None
+    st = None
+
+
+def SUM(lst, lo, hi):
+    return seq_sum(_SumCtx.ex, _SumCtx.st, lst.raw().as_seq() if lst.raw().is_conc() else lst.raw().v, lo, hi)
+
+
+def month_stats(E, src, total, peak, avg, day, m, part):
+    lo, hi = CUM[m - 1], CUM[m]
+    if part == "total":
+        return And(total[m] == SUM(src, lo, hi), avg[m] == total[m] / (hi - lo))
+    if part == "peak-bounds-the-month":
+        return forall(1, lambda h: Implies(And(lo <= h, h < hi), src[h] <= peak[m]))
+    if part == "peak-attained-on-the-peak-day":
+        return And(day[m] >= 0, day[m] < DAYS[m - 1],
+                   exists(1, lambda h: And(lo + 24 * day[m] <= h, h < lo + 24 * day[m] + 24, src[h] == peak[m])))
+    raise KeyError(part)
+
+
+def _split_months_ensures():
+    out = []
+    for m in range(1, 13):
+        for part in ("total", "peak-bounds-the-month", "peak-attained-on-the-peak-day"):
+            out.append((f"month-{m}-rejection-{part}", (lambda E, m=m, part=part: month_stats(E, E.self.hourly_rejection_loads, E.self.monthly_cl, E.self.monthly_peak_cl,
+                                                                                              E.self.monthly_avg_cl, E.self.monthly_peak_cl_day, m, part))))
+            out.append((f"month-{m}-extraction-{part}", (lambda E, m=m, part=part: month_stats(E, E.self.hourly_extraction_loads, E.self.monthly_hl, E.self.monthly_peak_hl,
+                                                                                               E.self.monthly_avg_hl, E.self.monthly_peak_hl_day, m, part))))
+    return out
+
+
+contract(f"{H_}.split_loads_by_month", dict(self=HLsplit()), ensures=_split_months_ensures(), returns=NoneT())
+
+
+def HLtwo():
+    from pyvc.values import PyList as _PL
+
+    return ObjOf(H_, hourly_rejection_loads=YEAR, hourly_extraction_loads=YEAR, days_in_month=Const(_PL([0] + DAYS)),
+                 monthly_peak_cl_day=F13(Int), monthly_peak_hl_day=F13(Int),
+                 two_day_hourly_peak_cl_loads=FixedList([FixedList([Int])]), two_day_hourly_peak_hl_loads=FixedList([FixedList([Int])]))
+
+
+def _two_day_window(src, window, day, m):
+    """the 48 hourly loads of the day before the peak day and of the peak day (the day before 1 January is 31 December)"""
+    lo = CUM[m - 1]
+
+    def hour_of_year(k):
+        g = lo + 24 * (day[m] - 1) + k
+        return If(g < 0, g + 8760, g)  # only 1 January reaches back into the previous (= same, repeated) year
+
+    return And(window.len == 48, forall(1, lambda k: Implies(And(0 <= k, k < 48), window[k] == src[hour_of_year(k)])))
+
+
+contract(f"{H_}.process_two_day_loads", dict(self=HLtwo()),
+         requires=[("peak-days-inside-their-months", lambda E: And(*[And(E.self.monthly_peak_cl_day[m] >= 0, E.self.monthly_peak_cl_day[m] < DAYS[m - 1],
+                                                                         E.self.monthly_peak_hl_day[m] >= 0, E.self.monthly_peak_hl_day[m] < DAYS[m - 1]) for m in range(1, 13)]))],
+         ensures=[(f"month-{m}-{nm}-window", (lambda E, m=m, nm=nm: _two_day_window(
+             getattr(E.self, f"hourly_{'rejection' if nm == 'cooling' else 'extraction'}_loads"),
+             getattr(E.self, f"two_day_hourly_peak_{'cl' if nm == 'cooling' else 'hl'}_loads")[m],
+             getattr(E.self, f"monthly_peak_{'cl' if nm == 'cooling' else 'hl'}_day"), m))) for m in range(1, 13) for nm in ("cooling", "heating")]
+         + [("thirteen-entries", lambda E: And(E.self.two_day_hourly_peak_cl_loads.len == 13, E.self.two_day_hourly_peak_hl_loads.len == 13))],
+         returns=NoneT())
